@@ -127,7 +127,7 @@ KillIn(op, j) ==
   /\ j \in 0..(Len(WritesOf(op)) - 1)
   /\ Set(ApplyAll(Store, SubSeq(WritesOf(op), 1, j)))
   /\ dead' = TRUE
-  /\ ks' = [has |-> TRUE, op |-> op, pre |-> mem, keep |-> KeptBy(op)]
+  /\ ks' = [has |-> TRUE, op |-> op, pre |-> mem, keep |-> KeptBy(op), metaPre |-> meta, commitPre |-> commitMem]
   /\ UNCHANGED <<mem, commitMem, saved, everSet, nextId, exc>>
   /\ nops' = nops + 1
 
@@ -158,6 +158,8 @@ KillSafe ==
   (dead /\ ks.has) =>
      IF ks.op.k = "add" THEN Visible = ks.pre \/ Visible = Append(ks.pre, ks.op.rec)
      ELSE IsSlice(Visible, ks.pre) /\ Contains(Visible, ks.keep)
+(* a kill inside the store of the commit index leaves the previously stored value or the new one *)
+MetaOldOrNew == (dead /\ ks.has) => meta \in {ks.metaPre, ks.commitPre}
 (* signature of known finding KF2: killed inside deleteEntriesTo (clear + re-add) *)
 HeadDropKill == dead /\ ks.has /\ ks.op.k = "delto"
 KillSafeModuloKF2 == HeadDropKill \/ KillSafe
